@@ -236,7 +236,7 @@ def generate() -> str:
     if name_list(boo["preferred_types"], "Boolean") != ["bool"]:
         raise TranslationError("Boolean.preferred_types changed")
     for nm, asg in (("String", stri), ("JIS8", jis)):
-        if name_list(asg["preferred_types"], nm) != ["bytes", "str"]:
+        if name_list(asg["preferred_types"], nm) != ["str"]:        # (bytes are Binary's: D71)
             raise TranslationError(f"{nm}.preferred_types changed")
     if name_list(arr["preferred_types"], "Array") != ["list"] or name_list(lst["preferred_types"], "List") != ["dict"]:
         raise TranslationError("Array/List.preferred_types changed")
